@@ -878,6 +878,11 @@ func (sr *SessionRun) do(env *Env, op *OpSpec, o []util.Option, rec *OpRec) {
 			defer close(sr.SpawnDone)
 			defer func() {
 				if r := recover(); r != nil {
+					if env.K.Dead() {
+						// (the run is over and its goroutines are being ended under the
+						// operation: not something the library did)
+						return
+					}
 					sr.Spawned.Panicked = true
 					env.Fail("panic-in-caller", PanicSite(string(debug.Stack())), "concurrent %s panicked: %v", sub.Kind, r)
 				}
